@@ -1,5 +1,6 @@
 """Shared harness pieces: shard results, witnesses, exception taxonomy, known-finding classification."""
 import ast
+import fnmatch
 import collections
 import json
 import os
@@ -125,7 +126,7 @@ def match_finding(prop, witness, findings):
         if f.get('status') != 'open' or f['property'] != prop:
             continue
         syms = f['symptom'] if isinstance(f['symptom'], list) else [f['symptom']]
-        if witness['symptom'] not in syms:
+        if not any(fnmatch.fnmatchcase(witness['symptom'], pat) for pat in syms):
             continue
         if set(f.get('zone', [])) <= feats:
             return f
